@@ -696,3 +696,48 @@ func isBoolType(t types.Type) bool {
 	b, ok := t.Underlying().(*types.Basic)
 	return ok && b.Info()&types.IsBoolean != 0
 }
+
+// SoleDefAllowingSteps: like SoleDef, but `v++`, `v--`, `v += c`, `v -= c` (also inside function literals) do not
+// count as definitions: the expression the variable is initialised with.
+func (p *Prog) SoleDefAllowingSteps(fn *Fn, v types.Object) ast.Expr {
+	if fn == nil || v == nil {
+		return nil
+	}
+	root := fn.Root()
+	var def ast.Expr
+	n := 0
+	ast.Inspect(root.Body, func(m ast.Node) bool {
+		switch x := m.(type) {
+		case *ast.AssignStmt:
+			if x.Tok != token.ASSIGN && x.Tok != token.DEFINE {
+				return true
+			}
+			for i, l := range x.Lhs {
+				if id, ok := ast.Unparen(l).(*ast.Ident); ok && p.ObjOf(fn, id) == v {
+					n++
+					if len(x.Lhs) == len(x.Rhs) {
+						def = x.Rhs[i]
+					} else {
+						n++
+					}
+				}
+			}
+		case *ast.ValueSpec:
+			for i, id := range x.Names {
+				if p.ObjOf(fn, id) == v {
+					n++
+					if len(x.Values) == len(x.Names) {
+						def = x.Values[i]
+					} else if len(x.Values) == 0 {
+						def = &ast.BasicLit{Kind: token.INT, Value: "0"}
+					}
+				}
+			}
+		}
+		return true
+	})
+	if n == 1 {
+		return def
+	}
+	return nil
+}
